@@ -704,6 +704,8 @@ func typedAPI(repM, repU *Report, wM, wU *CaseWriter, r *rand.Rand, thorough boo
 	apiFuncTargets(repM, repU, r)
 	apiHookKeyOrder(repM, repU, r)
 	apiInterleavedTaps(repM)
+	apiKeysNaNAndCycles(repM, "C08")
+	apiUnicodeFieldNames(repU)
 	apiOddsAndEnds(repM, repU)
 	apiPromotedRules(repU)
 	apiSameStringTypes(repU)
@@ -2012,6 +2014,154 @@ func apiOddsAndEnds(repM, repU *Report) {
 		if p1 || !p2 || p3 || !p4 || !tokensExactEq(got, ts) || !tokensExactEq(it, ts) {
 			repU.violate("C12", "must-wrapper-differs", fmt.Sprintf("MustTokensFromStream / MustTreeFromStream: panicked %v %v %v %v (expected false true false true); tokens [%s]; tree [%s]", p1, p2, p3, p4, descTokens(got), descTokens(it)), "Must* wrappers")
 			repU.violate("C14", "must-wrapper-differs", fmt.Sprintf("MustTokensFromStream / MustTreeFromStream: panicked %v %v %v %v (expected false true false true)", p1, p2, p3, p4), "Must* wrappers")
+		}
+	}
+}
+
+// ---- round 6 ----
+
+// a long stream through every reader flavour (many reads that return no data and no error accumulate)
+func apiLongStreamReaders(rep *Report, r *rand.Rand) {
+	var ts []sb.Token
+	for i := 0; i < 1500; i++ {
+		switch i % 5 {
+		case 0:
+			ts = append(ts, tokI(i))
+		case 1:
+			ts = append(ts, tokS(string(payload(r, i%9))))
+		case 2:
+			ts = append(ts, tokK(sb.KindNil))
+		case 3:
+			ts = append(ts, sb.Token{Kind: sb.KindBytes, Value: payload(r, i%7)})
+		default:
+			ts = append(ts, sb.Token{Kind: sb.KindUint8, Value: uint8(i)})
+		}
+	}
+	enc := runEncode(ts, 0, 0).bytes
+	for fl := range readerFlavours {
+		for _, cmp := range []bool{false, true} {
+			o := runDecode(enc, cmp, fl, false, r)
+			rep.Evaluations++
+			rep.count("api:long-stream-readers")
+			want := len(ts)
+			ok := o.err == nil
+			if !cmp {
+				ok = ok && tokensExactEq(o.toks, ts)
+			} else {
+				ok = ok && len(o.toks) >= want
+			}
+			if !ok {
+				what := fmt.Sprintf("a valid stream of %d tokens (%d bytes) read through %q (compare decoder: %v): %d tokens, %v", len(ts), len(enc), readerFlavours[fl], cmp, len(o.toks), o.err)
+				rep.violate("C02", "roundtrip", what, "long stream")
+				rep.violate("C04", "reader-flavour-dependent", what, "long stream")
+				rep.violate("C07", "segmented-route-reader-dependent", what, "long stream")
+			}
+		}
+	}
+}
+
+// NaN map keys behind an interface-typed key or a pointer key; cycles reached through a map KEY
+type keyNode struct {
+	Next *keyNode
+	M    map[*keyNode]int
+	A    map[any]int
+}
+
+func apiKeysNaNAndCycles(rep *Report, props ...string) {
+	nan := math.NaN()
+	nan32 := float32(math.NaN())
+	for name, v := range map[string]any{
+		"map[any]int{NaN: 1}":                 map[any]int{nan: 1},
+		"map[any]int{float32(NaN): 1}":        map[any]int{nan32: 1},
+		"map[any]int{NaN: 1, NaN: 2}":         map[any]int{nan: 1, math.Float64frombits(0x7ff8000000000002): 2},
+		"map[*float64]int{&NaN: 1}":           map[*float64]int{&nan: 1},
+		"map[any]int{&NaN: 1}":                map[any]int{&nan: 1},
+		"map[[1]any]int{{NaN}: 1}":            map[[1]any]int{{nan}: 1},
+		"struct{M map[any]string}{{NaN: x}}":  struct{ M map[any]string }{map[any]string{nan: "x"}},
+		"[]any{map[any]any{NaN: nil}}":        []any{map[any]any{nan: nil}},
+	} {
+		_, err := marshalTokens(v, nil)
+		rep.Evaluations++
+		rep.count("api:nan-keys")
+		// (a key whose stream is the single NaN token is rejected; a NaN inside a composite key is not such a key)
+		single := !strings.Contains(name, "[1]any")
+		if single && (classOf(err) != "EBadMapKey" || !errorsIs(err, sb.MarshalError)) {
+			for _, p := range props {
+				if p == "C08" {
+					rep.violate(p, "bad-key-accepted", fmt.Sprintf("a map with a NaN key marshals with %v, expected a BadMapKey marshal error", err), name)
+				}
+			}
+		}
+	}
+	// cycles through keys
+	n1 := &keyNode{}
+	n1.M = map[*keyNode]int{n1: 1}
+	n2 := &keyNode{}
+	n2.A = map[any]int{n2: 1}
+	n3 := &keyNode{}
+	n3.Next = &keyNode{M: map[*keyNode]int{n3: 1}}
+	type sk struct{ P *keyNode }
+	n4 := &keyNode{}
+	n4.A = map[any]int{sk{n4}: 1}
+	for name, v := range map[string]any{"a node whose map[*node] key is the node": n1, "a node whose map[any] key is the node": n2, "a key two steps down points back to the root": n3, "a struct key holding a pointer back": n4} {
+		var err error
+		var leaked int
+		e := withWatchdog(10*time.Second, &leaked, func() error { _, err = marshalTokens(v, nil); return nil })
+		rep.Evaluations++
+		rep.count("api:key-cycles")
+		if e != nil || classOf(err) != "ECyclic" || !errorsIs(err, sb.MarshalError) {
+			for _, p := range props {
+				if p == "C18" {
+					rep.violate(p, "cycle-not-reported", fmt.Sprintf("a cycle reached through a map key: Marshal returned %v (%v), expected a CyclicPointer marshal error", err, e), name)
+				}
+			}
+		}
+	}
+}
+
+// exported field names outside ASCII are identifiers too
+type UniFields struct {
+	Größe int
+	Δt    float64
+	Ω     string
+	Ärger []int
+	A1_b  bool
+}
+
+func apiUnicodeFieldNames(repU *Report) {
+	v := UniFields{Größe: 3, Δt: 1.5, Ω: "o", Ärger: []int{1}, A1_b: true}
+	for _, x := range []any{v, []any{v}, map[string]any{"k": v}} {
+		ts, err := marshalTokens(x, nil)
+		if err != nil {
+			continue
+		}
+		var back any
+		e := guard(func() error { return copyBudget(tokensFrom(ts), sb.Unmarshal(&back)) })
+		repU.Evaluations++
+		repU.count("api:unicode-field-names")
+		desc := fmt.Sprintf("an object with exported non-ASCII field names: [%s]", truncate(descTokens(ts), 300))
+		if e != nil {
+			repU.violate("C11", "any-rejects-in-domain", fmt.Sprintf("rejected: %v", e), desc)
+			continue
+		}
+		if re, e2 := marshalTokens(back, nil); e2 != nil || !tokensExactEq(re, ts) {
+			repU.violate("C11", "any-not-lossless", fmt.Sprintf("re-marshalling gives [%s] (%v)", truncate(descTokens(re), 300), e2), desc)
+		}
+	}
+	var back UniFields
+	ts, _ := marshalTokens(v, nil)
+	if e := guard(func() error { return copyBudget(tokensFrom(ts), sb.Unmarshal(&back)) }); e != nil || !reflect.DeepEqual(back, v) {
+		repU.violate("C01", "roundtrip-error", fmt.Sprintf("a struct with non-ASCII field names does not round-trip: %v %+v", e, back), "UniFields")
+	}
+	// names that are NOT exported identifiers are still rejected by the schema-less target
+	for _, name := range []string{"größe", "1A", "A-b", "", "Ω x", "_A"} {
+		var x any
+		e := guard(func() error {
+			return copyBudget(tokensFrom([]sb.Token{tokK(sb.KindObject), tokS(name), tokI(1), tokK(sb.KindObjectEnd)}), sb.Unmarshal(&x))
+		})
+		repU.Evaluations++
+		if classOf(e) != "EBadField" {
+			repU.violate("C11", "bad-field-name-accepted", fmt.Sprintf("the field name %q into any: %v, expected BadFieldName", name, e), "field name "+name)
 		}
 	}
 }
